@@ -1277,7 +1277,8 @@ impl Server {
         let mut query = String::from("");
 
         for (key, value) in parameter_diff {
-            query.push_str(&format!("SET {} TO '{}';", key, value));
+            // The value is a string literal: a quote inside it has to be doubled.
+            query.push_str(&format!("SET {} TO '{}';", key, value.replace('\'', "''")));
         }
 
         let res = self.query(&query).await;
